@@ -278,6 +278,9 @@ func GetAttr(v Value, attr Value, args ...Value) (Value, error) {
 		return nil, fmt.Errorf("getattr: unable to locate attribute \"%s\" on \"%v\"", attr, v)
 	}
 	if retval.Kind() == reflect.Func {
+		if retval.IsNil() {
+			return nil, fmt.Errorf("getattr: attribute \"%s\" on \"%v\" is a nil function", attr, v)
+		}
 		t := retval.Type()
 		if t.NumOut() > 1 {
 			return nil, fmt.Errorf("getattr: multiple return values unsupported, called method \"%s\" on \"%v\"", attr, v)
